@@ -60,3 +60,7 @@ let () =
       else if at <> "1" then Viol "non-nil error but the conn was not closed when Dial returned"
       else Pass true
     | _ -> Diff "malformed line")
+
+let () =
+  (* H09B: the HTTP upgraders when the hijacked reader already holds client bytes; judged as H09 *)
+  register "H09B" (fun i o -> (Hashtbl.find handlers "H09") i o)
